@@ -172,7 +172,7 @@ def sv_str(sv, depth=0):
     if h == "try":
         return "try(%s)" % r(sv[1])
     if h == "elem":
-        return "elem@%s" % (site_str(sv[1]),)
+        return "elem@%s%s" % (site_str(sv[1]), "" if len(sv) < 3 or sv[2] is None else "[%s]" % sv[2])
     if h in ("min", "max"):
         return "%s(%s, %s)" % (h, r(sv[2]), r(sv[3]))
     if h == "streq":
